@@ -19,6 +19,7 @@ func genCfg(t *rapid.T) Config {
 	cfg.StringCalls = rapid.Bool().Draw(t, "strcalls")
 	cfg.BlockReturn = rapid.Bool().Draw(t, "blockret")
 	cfg.AritySlack = rapid.Bool().Draw(t, "arityslack")
+	cfg.DupParams = rapid.Bool().Draw(t, "dupparams")
 	cfg.Patterns = rapid.Bool().Draw(t, "patterns")
 	return cfg
 }
